@@ -266,6 +266,13 @@ Proof.
   inversion F; subst. intros k Hk. rewrite IH by assumption. now apply lose_vis.
 Qed.
 
+Lemma pad_vis : forall s, vis_eq (pad_tmp s) s.
+Proof.
+  induction s as [|[k' c] r IH]; intros k Hk; simpl; [reflexivity|].
+  destruct (N.even k') eqn:Ev; simpl; destruct (N.eqb_spec k k') as [->|Hne]; try reflexivity; try (now apply IH).
+  unfold vk in Hk. congruence.
+Qed.
+
 Lemma firstn_S_nth : forall {A} (l : list A) k o, nth_error l k = Some o -> firstn (S k) l = firstn k l ++ [o].
 Proof.
   induction l as [|x r IH]; intros k o H; destruct k; simpl in *; try discriminate.
@@ -295,7 +302,7 @@ Proof.
       * now apply Forall_firstn'.
       * apply sbr_app with (skipn k ops). now rewrite firstn_skipn.
       * constructor.
-    + exists k. intros x _. reflexivity.
+    + destruct (v =? 3); [exists k; apply pad_vis|exists k; intros x _; reflexivity].
 Qed.
 
 Lemma group_tmpw : forall n tmp c, tmpname tmp -> Forall tmpw (atomic_write n tmp c).
@@ -346,10 +353,12 @@ Proof.
   intros fs s [I _]. unfold resume_ops, found. unfold vfind in I. rewrite I. auto.
 Qed.
 
-Lemma crash_nil : forall s k v, crash_state s [] k v = s.
+Lemma crash_nil_vis : forall s k v, vis_eq (crash_state s [] k v) s.
 Proof.
   intros. unfold crash_state. rewrite firstn_nil.
-  destruct (v =? 1); [destruct k; reflexivity|]. destruct (v =? 2); reflexivity.
+  destruct (v =? 1); [destruct k; intros x _; reflexivity|].
+  destruct (v =? 2); [intros x _; reflexivity|].
+  destruct (v =? 3); [apply pad_vis|intros x _; reflexivity].
 Qed.
 
 (* the first run (StartSearch on an empty directory, then processRequest) *)
@@ -456,7 +465,7 @@ Proof.
         { apply lose_all_vis. apply unsynced_tmp; [now apply Forall_firstn'| |constructor].
           apply sbr_app with (skipn k (start_ops fs)). now rewrite firstn_skipn. }
         apply (vis_eq_inv_final fs _ _ V). apply P. lia.
-      * apply P. lia.
+      * destruct (v =? 3); [apply (vis_eq_inv_final fs _ _ (pad_vis _))|]; apply P; lia.
 Qed.
 
 (* any chain of crashes: run, crash, restart, crash inside the resumed run, ... *)
@@ -468,9 +477,9 @@ Proof.
   destruct rest as [|p rest']; [apply C|].
   apply IH.
   - intros k2 v2. destruct (C k v) as [U|[I|Fn]].
-    + destruct (unpublished_inert fs _ U) as [-> _]. rewrite crash_nil. now left.
+    + destruct (unpublished_inert fs _ U) as [-> _]. apply (vis_eq_safe fs _ _ (crash_nil_vis _ _ _)). now left.
     + right. now apply resume_crash_safe.
-    + destruct (final_stable fs _ Fn) as [-> _]. rewrite crash_nil. right; now right.
+    + destruct (final_stable fs _ Fn) as [-> _]. apply (vis_eq_safe fs _ _ (crash_nil_vis _ _ _)). right; now right.
   - destruct (C k v) as [U|[I|Fn]].
     + destruct (unpublished_inert fs _ U) as [-> _]. now left.
     + right; right. now apply resume_complete.
